@@ -65,8 +65,8 @@ func init() {
 
 func init() {
 	props["C28"] = &PropSpec{
-		Rules:      []string{"hdr/native", "hdr/includes", "native/argidx", "native/argrep", "arith/result-follows-operand"},
-		Decides:    "that every class, mixin and module the headers define exists at run time under the same constant path, and that every `include` the headers declare for such a namespace is matched by the run-time hierarchy of package value (directly, through an included mixin or a superclass) - calls on built-in classes are bound against the run-time objects, so a method the checker finds through an include the run-time class lacks is bound to nothing; that the mixed-kind arithmetic methods behind Int, Float and BigFloat operators return every non-error result from inside the dispatch on the operand's representation (the headers declare a different result class per operand class, so a result returned for all operand kinds alike has the wrong class for all but one); for every native method whose header declares a parameter (or the receiver) as one of the simple built-in value classes (about 1100 argument positions): the accessors the native applies directly to that argument assume only representations that class can have, so a typed overload such as Float#+@1(other: Int) is not implemented by a body that reads a Float; for every method the std headers declare native and for which a native registration on the same class resolves (about 2400 pairs): the registration takes exactly the parameters the header declares (the VM sizes the argument slice from the registration, so fewer means an out-of-range read, more means shifted arguments); and every native method body indexes its argument slice only within the parameter count it is registered with.",
+		Rules:      []string{"hdr/native", "hdr/includes", "native/argidx", "native/argrep", "native/retrep", "native/recvcast", "arith/result-follows-operand"},
+		Decides:    "that a native method stored in the method table of a class converts its receiver to a Go type of that class (not of the class the file was copied from), and that the class of every evident return value of a native (a constructor whose class is fixed by its Go type, followed through single-class helpers) is one the header's return type names, where that type is built from classes, mixins, nilables and unions; that every class, mixin and module the headers define exists at run time under the same constant path, and that every `include` the headers declare for such a namespace is matched by the run-time hierarchy of package value (directly, through an included mixin or a superclass) - calls on built-in classes are bound against the run-time objects, so a method the checker finds through an include the run-time class lacks is bound to nothing; that the mixed-kind arithmetic methods behind Int, Float and BigFloat operators return every non-error result from inside the dispatch on the operand's representation (the headers declare a different result class per operand class, so a result returned for all operand kinds alike has the wrong class for all but one); for every native method whose header declares a parameter (or the receiver) as one of the simple built-in value classes (about 1100 argument positions): the accessors the native applies directly to that argument assume only representations that class can have, so a typed overload such as Float#+@1(other: Int) is not implemented by a body that reads a Float; for every method the std headers declare native and for which a native registration on the same class resolves (about 2400 pairs): the registration takes exactly the parameters the header declares (the VM sizes the argument slice from the registration, so fewer means an out-of-range read, more means shifted arguments); and every native method body indexes its argument slice only within the parameter count it is registered with.",
 		NotCovered: "native methods reached only through included mixins or through containers the analysis does not resolve (counted in the evidence, not decided); parameter and return *types* (see C01/C02 rules); thrown-error classes; semantic correctness of results.",
 	}
 }
@@ -109,7 +109,7 @@ func init() {
 		NotCovered: "numeric formatting (float %g round trip, big floats, literal bases and suffixes), String#to_int, regex inspect, and nesting of collections: these depend on numeric values, not on table shape.",
 	}
 	props["C01"] = &PropSpec{
-		Rules:      []string{"native/argidx", "native/argrep", "hash/grow-by-occupied", "optable/siteinfo", "cover/offsets", "cover/rebase", "stack/stale-after-reentry", "effect/mayfatal-unlock", "path/recoverguard", "path/snapshot-first", "effect/selfrec", "layout/params-first", "stack/result-protocol", "path/throw-continues", "hdr/includes"},
+		Rules:      []string{"native/argidx", "native/argrep", "hash/grow-by-occupied", "optable/siteinfo", "cover/offsets", "cover/rebase", "stack/stale-after-reentry", "effect/mayfatal-unlock", "path/recoverguard", "path/snapshot-first", "effect/selfrec", "layout/params-first", "stack/result-protocol", "path/throw-continues", "hdr/includes", "native/retrep", "native/recvcast"},
 		Decides:    "nine host-crash mechanisms, each enumerated over all of its sites: a native method indexes its argument slice only within the parameter count it is registered with; a call instruction is always paired with the call-site record type its handler reinterprets through an unsafe pointer, also after instructions were moved; growing the value stack rebases every saved address, and no VM function uses a stack address across a call that can grow the stack; no program-driven unlock can reach the runtime's unrecoverable fatal error; sends, closes, selects and wait-group decrements on program-held objects are recovered or guarded; a method's defer prologue cannot be lost to a flag snapshot taken too late; no function is an unconditional self call.",
 		NotCovered: "index-out-of-range, nil dereference and explicit panic sites whose guard depends on run-time values; representation mismatches between a native method's declared parameter types and the accessors it applies (planned ARGREP engine, not built); Go map concurrent-write fatals from racy Elk programs; soundness of the Elk type system itself. Open finding: select with a send case on a closed channel (listed under C25).",
 	}
